@@ -342,7 +342,14 @@ def h_lookup_history(ctx, case):
     return 'ok'
 
 
+def _by_way():
+    from harness import C13
+    return Harness('transposition_scratch', C13.h_by_way_of_disk,
+                   **C13.BY_WAY)
+
+
 HARNESSES = [
+    _by_way(),
     Harness('statistics_stage_history', h_stats_history, setup=_rs_setup,
             cases=[{'cells': 2, 'genes': 1, 'clusters': 1, 'max_proc': 2},
                    {'files': 2, 'cells': 1, 'genes': 1, 'clusters': 1,
